@@ -49,7 +49,7 @@ CHECKS += [
 
 CHECKS += [
     dict(property_id="C07", category="fault_enumeration",
-         text="The manager is killed (all connections vanish without close, session lingers until expiry) or loses ZooKeeper at its k-th external call - each SQL statement and each ZooKeeper write of the switchover, a ZooKeeper call cut before or after taking effect - for generated scenarios (quick: k drawn) and, in the thorough tier, for EVERY k of every scenario of a fixed grid x 2 successors; the successor daemons then run to quiescence and the C02 end-state oracle plus 'request no longer pending' are evaluated on ground truth. Crash points are call boundaries; a crash between two local actions is equivalent to a neighbouring point for everything observed except local files.",
+         text="The manager is killed (all connections vanish without close, session lingers until expiry) or loses ZooKeeper at its k-th external call - each SQL statement and each ZooKeeper write of the switchover, a ZooKeeper call cut before or after taking effect - for generated scenarios (quick: k drawn) and, in the thorough tier, for EVERY k of every scenario of a fixed grid x 2 successors; the successor daemons then run to quiescence and the C02 end-state oracle plus 'request no longer pending' are evaluated on ground truth. Crash points are call boundaries; a crash between two local actions is equivalent to a neighbouring point for everything observed except local files. Scenarios also come asynchronous (semi-sync off: only commits acknowledged by a server that never crashes must survive) and with clients writing to whatever is writable in the window between the interruption and the successor's first iteration while downloads are slow; the enumerating unit visits every call boundary (quick 900 cells, thorough 6600).",
          design_ref="DESIGN.md section 4, C07",
          note="Trusted: as C02; K (calls of the procedure) is measured per run by the fakes.",
          technique="fault enumeration over external call boundaries in the cluster simulation (property-based sampling in quick, exhaustive grid in thorough) with an end-state oracle"),
@@ -57,7 +57,7 @@ CHECKS += [
 
 CHECKS += [
     dict(property_id="C06", category="exploration",
-         text="Generated request histories (operator, worker-written and automatic requests, competing initiators, aborts and abort+refile also while an attempt is in flight, sticky MySQL-side faults that keep attempts failing, light maintenance, time advances across the timeout) are processed by the real manager loop in the simulation; an oracle over the ordered log of writes and deletes of switch / last_switch / last_rejected_switch checks the life cycle of every request (identity = initiated_by + initiated_at), and per completed manager iteration the bound, no-re-judging and success-implies-master clauses. Scripts of the three defects found and repaired are replayed on every run.",
+         text="Generated request histories (operator, worker-written and automatic requests, competing initiators, aborts and abort+refile also while an attempt is in flight, sticky MySQL-side faults that keep attempts failing, light maintenance, time advances across the timeout) are processed by the real manager loop in the simulation; an oracle over the ordered log of writes and deletes of switch / last_switch / last_rejected_switch checks the life cycle of every request (identity = initiated_by + initiated_at), and per completed manager iteration the bound, no-re-judging and success-implies-master clauses. Scripts of the three defects found and repaired are replayed on every run. An operator request can also slip in INSIDE the manager's iteration (injected through the ZooKeeper interceptor between the manager's look at the switch key and its own filing of a failover).",
          design_ref="DESIGN.md section 4, C06",
          note="Trusted: as C02; an iteration's window is delimited at the instant its body returns. Not reached: a request filed between the manager's own 'no request' read and IssueFailover inside one non-blocking stretch (stepper limit). Real CLI entry points are not driven (they need a real TCP dial); the operator model does the same create-if-absent writes.",
          technique="stateful property-based testing in the cluster simulation with a history oracle over the coordination-key log"),
@@ -81,7 +81,7 @@ CHECKS += [
 
 CHECKS += [
     dict(property_id="C03", category="exploration",
-         text="Two layers. (a) Lock layer: a rapid state machine over 2-3 real zkDCS clients (distinct process identities, restarts as new incarnations) on the fake ZooKeeper in virtual time - acquire/release/re-check, severed connections, refused reconnects, one-way black holes, delays below a third of the session timeout, forced and timer expiry, server stop/start, request-level faults (cut before / reply lost / hang) - with an oracle over the server's mutation log: every true answer is backed by the lock znode being owned by a live session of that client at some instant of the call, and every delete of the lock znode comes from its owner. (b) Daemon layer: generated histories in the cluster simulation with every AcquireLock answer recorded by a decorator; per completed iteration cluster-wide actions (mutating SQL to other hosts, writes of the guarded keys) occur only after a true answer in that iteration, and a promoting iteration has >=3 true answers before its first irrevocable statement, positioned after the freeze and after the catch-up.",
+         text="Two layers. (a) Lock layer: a rapid state machine over 2-3 real zkDCS clients (distinct process identities, restarts as new incarnations) on the fake ZooKeeper in virtual time - acquire/release/re-check, severed connections, refused reconnects, one-way black holes, delays below a third of the session timeout, forced and timer expiry, server stop/start, request-level faults (cut before / reply lost / hang) - with an oracle over the server's mutation log: every true answer is backed by the lock znode being owned by a live session of that client at some instant of the call, and every delete of the lock znode comes from its owner. (b) Daemon layer: generated histories in the cluster simulation with every AcquireLock answer recorded by a decorator; per completed iteration cluster-wide actions (mutating SQL to other hosts, writes of the guarded keys) occur only after a true answer in that iteration, and a promoting iteration has >=3 true answers before its first irrevocable statement, positioned after the freeze and after the catch-up. A rival process can acquire the lock inside the interceptor while another client's create request is in limbo (the interleaving a sequential driver cannot produce).",
          design_ref="DESIGN.md section 4, C03",
          note="Trusted: fake ZooKeeper session semantics; the ZooKeeper timing assumption (delays < T/3, sessions end by the server's timer; an administrative expiry is generated only without message delay); goroutine scheduling lag between a disconnect event and the cache being cleared is not modelled (virtual time).",
          technique="stateful model-based property testing of the real lock client against server-side ownership history + trace oracle in the cluster simulation"),
@@ -89,7 +89,7 @@ CHECKS += [
 
 CHECKS += [
     dict(property_id="C17", category="exploration",
-         text="The real repairOfflineMode runs on a cluster state collected by the real getClusterStateFromDB from fake servers whose zone layout, separator, percentage, lags around both thresholds, unknown lag, permanent breakage, resetup-status ages, master mode and recovery mark are generated, over 1-3 passes with time advancing across the enable interval; every offline_mode statement that reaches a server is judged in arrival order against the statement's rules (validity predicate: mysync's map iteration order decides which replica goes first, so there is no single expected answer).",
+         text="The real repairOfflineMode runs on a cluster state collected by the real getClusterStateFromDB from fake servers whose zone layout, separator, percentage, lags around both thresholds, unknown lag, permanent breakage, resetup-status ages, master mode and recovery mark are generated, over 1-3 passes with time advancing across the enable interval; every offline_mode statement that reaches a server is judged in arrival order against the statement's rules (validity predicate: mysync's map iteration order decides which replica goes first, so there is no single expected answer). The coordination-service write that registers a replica taken offline for lag may fail (cut through the interceptor): the statement still counts towards the zone's share.",
          design_ref="DESIGN.md section 4, C17",
          note="Trusted: fake MySQL's Seconds_Behind model (NULL when the SQL thread is stopped or the IO thread is stopped with an empty relay log). The check judges statements that were sent; it does not demand that a permitted action is taken (the statement says 'only when').",
          technique="property-based testing of the real repair pass over fake servers with a per-statement validity oracle"),
@@ -111,7 +111,7 @@ CHECKS += [
 
 CHECKS += [
     dict(property_id="C16", category="exploration",
-         text="Four generated checks on the real code. (1) findBestStreamFrom over generated stream_from maps (chains, cycles through the replica, self-references, references to HA hosts), ancestor health/lag/offline combinations and 'already streaming' against a reference resolver written from the statement, with never-self and termination (watchdog) asserted separately. (2) the guarded move: the real repairSlaveNode on states collected by getClusterStateFromDB from fake servers whose transaction sets are drawn independently (behind/equal/ahead/diverged relations); every CHANGE SOURCE reaching a cascade replica that has a channel is judged against ground truth at the instant it arrives. (3) metamorphic check of the HA counting helpers: deleting the cascade hosts from the observed state changes no count. (4) whole-cluster simulation with cascade replicas, source crashes, lagging sources and stream_from rewrites: same instant-of-move oracle, and no cascade host in active_nodes after any round. 'Never promoted' is reported by the promotion monitor shared with C01/C02/C05/C07, whose generators include cascade replicas.",
+         text="Four generated checks on the real code. (1) findBestStreamFrom over generated stream_from maps (chains, cycles through the replica, self-references, references to HA hosts), ancestor health/lag/offline combinations and 'already streaming' against a reference resolver written from the statement, with never-self and termination (watchdog) asserted separately. (2) the guarded move: the real repairSlaveNode on states collected by getClusterStateFromDB from fake servers whose transaction sets are drawn independently (behind/equal/ahead/diverged relations); every CHANGE SOURCE reaching a cascade replica that has a channel is judged against ground truth at the instant it arrives. (3) metamorphic check of the HA counting helpers: deleting the cascade hosts from the observed state changes no count. (4) whole-cluster simulation with cascade replicas, source crashes, lagging sources and stream_from rewrites: same instant-of-move oracle, and no cascade host in active_nodes after any round. 'Never promoted' is reported by the promotion monitor shared with C01/C02/C05/C07, whose generators include cascade replicas. The simulation also converts HA replicas into cascade replicas (as 'mysync host add --stream-from' does) and lets the master die with automatic failover enabled; no SET read_only=OFF may reach a host registered as cascade replica.",
          design_ref="DESIGN.md section 4, C16",
          note="Trusted: the fake servers' transaction sets are the ground truth; the aggressive-repair path (reset + re-point at the master) is not enabled in these runs.",
          technique="property-based testing with a reference resolver (model oracle), a metamorphic relation on the counting helpers, and an instant-of-effect invariant over generated transaction-set relations and simulated histories"),
@@ -119,7 +119,7 @@ CHECKS += [
 
 CHECKS += [
     dict(property_id="C10", category="exploration",
-         text="The real daemons (manager elected through the fake ZooKeeper) run repeated iterations over fake MySQL servers whose initial state is drawn per host from the product the property lists (read-only flags, offline, semi-sync flags, replication source incl. another replica and an unregistered server, thread states, SQL errors that persist or get cured, hosts claiming to be master with or without own transactions), with semi-sync and aggressive repair on/off, attempt limits 1-3 and 0-4 failing statements (error, cut before/after execution, hang) aimed at the repair statements. Monitors judge every statement at the instant it arrives (none to the unregistered server, none pointing a server at itself or at it, RESET REPLICA ALL only when aggressive repair, attempt limit and cooldown allow), the master key after every iteration, and the end state after fault-free iterations with time jumps. A second unit visits every cell of a reduced grid (648 cells) exactly once. One defect found is recorded as a known finding.",
+         text="The real daemons (manager elected through the fake ZooKeeper) run repeated iterations over fake MySQL servers whose initial state is drawn per host from the product the property lists (read-only flags, offline, semi-sync flags, replication source incl. another replica and an unregistered server, thread states, SQL errors that persist or get cured, hosts claiming to be master with or without own transactions), with semi-sync and aggressive repair on/off, attempt limits 1-3 and 0-4 failing statements (error, cut before/after execution, hang) aimed at the repair statements. Monitors judge every statement at the instant it arrives (none to the unregistered server, none pointing a server at itself or at it, RESET REPLICA ALL only when aggressive repair, attempt limit and cooldown allow), the master key after every iteration, and the end state after fault-free iterations with time jumps. A second unit visits every cell of a reduced grid (648 cells) exactly once. One defect found is recorded as a known finding. Repair statements may also keep failing on the broken hosts for the whole run, or START REPLICA may fail right after RESET REPLICA ALL: failed attempts count against limit and cooldown like successful ones.",
          design_ref="DESIGN.md section 4, C10",
          note="Trusted: the fake servers' variables and channels are the ground truth; failing reads on the master are not injected (the property presumes a healthy reachable master); hosts that ever had an SQL error are exempt from 'replication runs' (their repair budget may be spent) but not from 'points at the master'.",
          technique="property-based testing of the real repair loop over fake servers: generated initial states and fault schedules, instant-of-statement invariants plus an end-state validity predicate; exhaustive enumeration of a reduced grid"),
